@@ -62,11 +62,11 @@ theorem loop_names (flt : Option Filter) : ∀ (tests : List Script) (gs : Bool)
       have hst : stFrom s2 [Ev.groupEnded ms] = onGroupEnded s2 ms := by
         simp [stFrom_cons, stFrom_nil, step, hc2]
       have ih := loop_names flt rest true (if gs = true then r.clock else g0) (bodyR flt t r) (onGroupEnded s2 ms)
-        (by simp [onGroupEnded, reset, hc2]) (by intro _; simp [onGroupEnded, reset])
+        (by simp [onGroupEnded, reset_eq, hc2]) (by intro _; simp [onGroupEnded, reset_eq])
       rw [hrep, hst, List.map_append, ih.1]
       refine ⟨?_, ih.2.1, ih.2.2.1, ih.2.2.2.1, ?_⟩
-      · simp [loopNames, he, reportOf, onGroupEnded, reset, hp2, hg]
-      · rw [ih.2.2.2.2]; simp [onGroupEnded, reset, hp2]
+      · simp [loopNames, he, reportOf, onGroupEnded, reset_eq, hp2, hg]
+      · rw [ih.2.2.2.2]; simp [onGroupEnded, reset_eq, hp2]
 
 /-- a state between runs: nothing collected, no group known -/
 def Fresh (s : St) : Prop := s.crashed = false ∧ s.nodesRev = [] ∧ s.group = []
